@@ -5,7 +5,7 @@
 //!   pretty replay <hex of text bytes> <position> <file|->
 use peginator::{ParseError, ParseErrorSpecifics, PrettyParseError};
 
-const ALPHABET: &[&str] = &["a", "é", "€", "\n", " "];
+const ALPHABET: &[&str] = &["a", "é", "€", "\n", " ", "\r"];
 
 /// the contract, straight from the property statement
 fn expected(text: &str, pos: usize) -> (usize, usize, String) {
@@ -34,6 +34,11 @@ fn check(text: &str, pos: usize, file: Option<&str>) -> Result<(), String> {
     let want_caret = format!("{}^", " ".repeat(column - 1));
     if caret != want_caret { return Err(format!("caret line is {:?}, contract says {:?} (column {column})", caret, want_caret)); }
     Ok(())
+}
+
+/// kind 0: k times 'a';  kind 1: "x\n" + k times 'a' + "\ny";  kind 2: k times 'é'
+fn long_text(kind: usize, k: usize) -> String {
+    match kind { 0 => "a".repeat(k), 1 => format!("x\n{}\ny", "a".repeat(k)), _ => "é".repeat(k) }
 }
 
 fn hex(s: &str) -> String { s.bytes().map(|b| format!("{b:02x}")).collect() }
@@ -69,6 +74,35 @@ fn main() {
             }
             println!("B-DONE maxlen={maxlen} texts={} cases={cases} multiline_cases={multiline} failures={fails}", texts.len());
             std::process::exit(if fails > 0 { 1 } else { 0 });
+        }
+        Some("long") => {
+            // long lines (the property names them): a fixed family, not exhaustive
+            let (mut cases, mut fails) = (0u64, 0u64);
+            for kind in 0..3usize {
+                for k in [255usize, 256, 257, 65534, 65535, 65536, 65537, 70000] {
+                    let text = long_text(kind, k);
+                    for pos in [0usize, 1, 255, 256, 65533, 65534, 65535, 65536, 65537, 69999, 70000, text.len()] {
+                        if pos > text.len() || !text.is_char_boundary(pos) { continue; }
+                        for file in [None, Some("g.ebnf")] {
+                            cases += 1;
+                            if let Err(why) = check(&text, pos, file) {
+                                fails += 1;
+                                if fails <= 8 { println!("B-FAIL-LONG kind={kind} k={k} pos={pos} file={} why={:?}", file.unwrap_or("-"), why.chars().take(160).collect::<String>()); }
+                            }
+                        }
+                    }
+                }
+            }
+            println!("B-LONG-DONE cases={cases} failures={fails}");
+            std::process::exit(if fails > 0 { 1 } else { 0 });
+        }
+        Some("replay-long") => {
+            let (kind, k, pos): (usize, usize, usize) = (args[2].parse().unwrap(), args[3].parse().unwrap(), args[4].parse().unwrap());
+            let file = if args[5] == "-" { None } else { Some(args[5].as_str()) };
+            match check(&long_text(kind, k), pos, file) {
+                Ok(()) => println!("B-REPLAY-PASS long kind={kind} k={k} pos={pos}"),
+                Err(why) => { println!("B-REPLAY-FAIL long kind={kind} k={k} pos={pos} why={:?}", why.chars().take(200).collect::<String>()); std::process::exit(1); }
+            }
         }
         Some("replay") => {
             let text = unhex(&args[2]);
